@@ -4,10 +4,12 @@ import (
 	"encoding/json"
 	"fmt"
 	"regexp"
+	"sort"
 	"strconv"
 	"strings"
 
 	"verifharness/gen"
+	"verifharness/gen/rt"
 	"verifharness/gram"
 	"verifharness/tsrun"
 	"verifharness/ygo"
@@ -51,7 +53,7 @@ type c11Case struct {
 
 func c11Menu() []tokSlot {
 	m := []tokSlot{{Kind: "auto"}, {Kind: "tagged"}, {Kind: "preconly"}, {Kind: "twice", Num: 300}, {Kind: "twice", Num: 4}, {Kind: "precthennum", Num: 5}}
-	for _, n := range []int{1, 2, 3, 43, 97, 257, 1000, -1} {
+	for _, n := range []int{1, 2, 3, 43, 97, 257, 1000, -1, -5} {
 		m = append(m, tokSlot{Kind: "num", Num: n})
 	}
 	for _, c := range []rune{'+', 'a', '{', 'é', 'ü'} {
@@ -311,13 +313,17 @@ func c11Compile(w *Worker, cases []*c11Case, name string) {
 		symID  map[int]int
 		max    int
 		goIt   *gen.Item
+		goOIt  *gen.Item
 		tsIt   *gen.Item
 		failed bool
+		// sentence: the input on which the lexer answers the codes of the mix in rule order;
+		// expect: input -> must be accepted?
+		expect map[string]bool
 	}
 	var ents []*ent
 	byPkg := map[string]*ent{}
 	for i, c := range cases {
-		spec, _, _ := c.spec()
+		spec, _, order := c.spec()
 		d := gen.Decorate(spec, gen.Tags{}, gen.NoAction)
 		// keep the declarations of the mix exactly: Decorate adds %token lines for undeclared terminals, so render by hand
 		e := &ent{c: c, codes: map[string]int{}, symID: map[int]int{}}
@@ -346,10 +352,33 @@ func c11Compile(w *Worker, cases []*c11Case, name string) {
 				}
 			}
 		}
-		gp, tp := fmt.Sprintf("t%d_go", i), fmt.Sprintf("t%d_ts", i)
+		gp, tp, op := fmt.Sprintf("t%d_go", i), fmt.Sprintf("t%d_ts", i), fmt.Sprintf("t%d_goo", i)
 		e.goIt = b.AddText(gp, gen.Go, mk(gen.Go, gp))
+		e.goOIt = b.AddText(op, gen.GoO, mk(gen.GoO, op))
 		e.tsIt = b.AddText(tp, gen.TS, mk(gen.TS, tp))
-		byPkg[gp], byPkg[tp] = e, e
+		byPkg[gp], byPkg[tp], byPkg[op] = e, e, e
+		// end to end: the lexer answers the codes, the parser must take each for its own symbol
+		// (the only sentence is the tokens in rule order) and everything else for an error
+		var sent []byte
+		for _, name := range order {
+			sent = append(sent, d.Chars[name])
+		}
+		e.expect = map[string]bool{}
+		if len(sent) > 0 {
+			for k := 0; k <= len(sent); k++ {
+				e.expect[string(sent[:k])] = false // proper prefixes (overwritten below for the sentence)
+				if k < len(sent) {
+					e.expect[string(sent[:k])+"?"+string(sent[k+1:])] = false // an undeclared code at position k
+					if k+1 < len(sent) && sent[k] != sent[k+1] {
+						sw := append([]byte(nil), sent...)
+						sw[k], sw[k+1] = sw[k+1], sw[k]
+						e.expect[string(sw)] = false
+					}
+				}
+			}
+			e.expect[string(sent)+"?"] = false
+			e.expect[string(sent)] = true
+		}
 		ents = append(ents, e)
 	}
 	if err := b.BuildGo(); err != nil {
@@ -413,6 +442,29 @@ func c11Compile(w *Worker, cases []*c11Case, name string) {
 			}
 		}
 	}
+	checkRun := func(e *ent, variant, input string, res *rt.Result) {
+		want, ok := e.expect[input]
+		if !ok || res == nil {
+			return
+		}
+		w.Count("end_to_end_parses", 1)
+		switch {
+		case want && res.Class != "accept":
+			fail(e, "token-does-not-reach-its-symbol", variant, fmt.Sprintf("the lexer answers the codes of the declared tokens in rule order (input %q) but the parser answers %s %s", input, res.Class, res.Panic))
+		case !want && res.Class == "accept":
+			fail(e, "undeclared-code-taken-for-a-token", variant, fmt.Sprintf("input %q is not the token sequence of the only rule ('?' = a code that is no token), but the parser accepts it", input))
+		case !want && res.Class != "syntax-error":
+			fail(e, "undeclared-code-not-an-error", variant, fmt.Sprintf("input %q: expected the documented syntax error, the parser answers %s %s", input, res.Class, res.Panic))
+		}
+	}
+	inputsOf := func(e *ent) []string {
+		var in []string
+		for k := range e.expect {
+			in = append(in, k)
+		}
+		sort.Strings(in)
+		return in
+	}
 	var jobs []gen.Job
 	var tsJobs []tsrun.Job
 	for _, e := range ents {
@@ -421,19 +473,29 @@ func c11Compile(w *Worker, cases []*c11Case, name string) {
 			w.SetAdd("compile_problems", e.goIt.GenDiag+e.goIt.BuildErr)
 		} else {
 			checkConsts(e, e.goIt, "go")
-			jobs = append(jobs, gen.Job{Pkg: e.goIt.Pkg, TransLo: -2, TransHi: e.max + 2})
+			jobs = append(jobs, gen.Job{Pkg: e.goIt.Pkg, TransLo: -9, TransHi: e.max + 2, Inputs: inputsOf(e), Fuel: 10000})
+		}
+		if e.goOIt.GenDiag == "" && e.goOIt.BuildErr == "" {
+			jobs = append(jobs, gen.Job{Pkg: e.goOIt.Pkg, TransLo: -9, TransHi: e.max + 2, Inputs: inputsOf(e), Fuel: 10000})
 		}
 		if e.tsIt.GenDiag == "" {
 			checkConsts(e, e.tsIt, "ts")
 			js, _, err := tsrun.EraseFile(e.tsIt.File)
 			if err == nil {
-				tsJobs = append(tsJobs, tsrun.Job{Pkg: e.tsIt.Pkg, File: js, TransLo: -2, TransHi: e.max + 2})
+				tsJobs = append(tsJobs, tsrun.Job{Pkg: e.tsIt.Pkg, File: js, TransLo: -9, TransHi: e.max + 2, Inputs: inputsOf(e), Fuel: 10000})
 			}
 		}
 	}
 	if err := b.RunGo(jobs, func(o *gen.Out) {
-		if o.Kind == "trans" {
-			checkTrans(byPkg[o.Pkg], "go", -2, o.Trans)
+		variant := "go"
+		if strings.HasSuffix(o.Pkg, "_goo") {
+			variant = "go-o"
+		}
+		switch o.Kind {
+		case "trans":
+			checkTrans(byPkg[o.Pkg], variant, -9, o.Trans)
+		case "run":
+			checkRun(byPkg[o.Pkg], variant, o.Input, o.Res)
 		}
 	}); err != nil {
 		w.Note("INTERNAL: " + err.Error())
@@ -442,7 +504,9 @@ func c11Compile(w *Worker, cases []*c11Case, name string) {
 		if err := tsrun.Run(b.Dir, tsJobs, func(o *tsrun.Out) {
 			switch {
 			case o.Kind == "trans":
-				checkTrans(byPkg[o.Pkg], "ts", -2, o.Trans)
+				checkTrans(byPkg[o.Pkg], "ts", -9, o.Trans)
+			case o.Kind == "run":
+				checkRun(byPkg[o.Pkg], "ts", o.Input, o.Res)
 			case o.Kind == "load" && o.Err != "":
 				w.SetAdd("compile_problems", "ts: "+o.Err)
 			}
